@@ -142,4 +142,65 @@ static inline unsigned gen_objgraph(vf::Src &s, std::vector<tx::Packet> &out, st
 }
 
 
+// A consistent TOP neighbourhood: the basic table page 1F0 (page types, and links to Additional Information Table, Multipage Table and
+// Multipage Extension pages in rows 21 / 22), the linked pages themselves (AIT: two titles per row, each a page link and twelve
+// characters), and an ordinary page without FLOF links, so that the formatter composes the TOP navigation bar from the AIT titles, the
+// TOP index page 900 can be fetched and vbi_page_title() finds titles. Returns the number of the ordinary page.
+static inline unsigned gen_top(vf::Src &s, std::vector<tx::Packet> &out, std::vector<unsigned> *recent = nullptr) {
+	Bulk bk(s.u32());
+	uint8_t txt[32]; memset(txt, 0x20, 32);
+	tx::HeaderFlags f; f.c4_erase = true;
+	auto hamrow = [&](unsigned mag, unsigned packet, const std::vector<unsigned> &nib) { tx::Packet p; enc::address(p.b, mag, packet); for (int i = 0; i < 40; ++i) p.b[2 + i] = enc::ham8(i < (int) nib.size() ? nib[(size_t) i] : bk.pick(16)); out.push_back(p); };
+	struct Tp { unsigned pgno, fn; };	// TOP pages: function 1 MPT, 2 AIT, 3 MPT-EX
+	std::vector<Tp> tops; unsigned nt = 1 + s.pick(4);
+	for (unsigned k = 0; k < nt; ++k) { Tp t; t.pgno = s.chance(2, 3) ? 0x1F1 + k : ((1 + s.pick(8)) << 8 | s.pick(10) << 4 | s.pick(10)); t.fn = s.chance(2, 3) ? 2 : 1 + s.pick(3); tops.push_back(t); }
+	unsigned page = (1 + s.pick(8)) << 8 | s.pick(10) << 4 | s.pick(10);
+	// basic table
+	out.push_back(tx::header(1, 0xF0, 0, f, txt));
+	for (unsigned pk = 1; pk <= 20; ++pk) if (s.chance(3, 4)) { std::vector<unsigned> n; for (int i = 0; i < 40; ++i) n.push_back(bk.pick(5) ? 1 + bk.pick(11) : bk.pick(16)); hamrow(1, pk, n); }
+	for (unsigned pk = 21; pk <= 22; ++pk) if (pk == 21 || s.chance(1, 2)) {
+		std::vector<unsigned> n;
+		for (int l = 0; l < 5; ++l) {
+			const Tp &t = tops[bk.pick((unsigned) tops.size())]; bool junk = !bk.pick(6);
+			unsigned pg = junk ? bk.pick(0x1000) : t.pgno;
+			n.push_back(pg >> 8); n.push_back((pg >> 4) & 15); n.push_back(pg & 15);
+			for (int k = 0; k < 4; ++k) n.push_back(junk ? bk.pick(16) : 0);
+			n.push_back(junk ? bk.pick(16) : t.fn);
+		}
+		hamrow(1, pk, n);
+	}
+	if (s.chance(1, 4)) { std::vector<unsigned> n; hamrow(1, 23, n); }
+	out.push_back(tx::header(1, 0xFF, 0x3F7F, f, txt));
+	// the linked pages
+	for (auto &t : tops) {
+		unsigned mag = t.pgno >> 8;
+		out.push_back(tx::header(mag, t.pgno & 0xFF, s.chance(3, 4) ? 0 : s.pick(4), f, txt));
+		if (recent) recent->push_back(t.pgno);
+		unsigned nrows = s.pick(24);
+		for (unsigned pk = 1; pk <= nrows && pk <= 23; ++pk) {
+			if (t.fn == 2) {	// two titles
+				tx::Packet p; enc::address(p.b, mag, pk);
+				for (int half = 0; half < 2; ++half) {
+					uint8_t *q = p.b + 2 + 20 * half;
+					unsigned kind = bk.pick(8);
+					unsigned pg = kind == 0 ? 0 : kind == 1 ? page : kind == 2 ? bk.pick(0x1000) : ((1 + bk.pick(8)) << 8 | bk.pick(10) << 4 | bk.pick(10));
+					unsigned nib[8] = { pg >> 8, (pg >> 4) & 15, pg & 15, 0, 0, bk.pick(3) ? 0 : bk.pick(8), bk.pick(3) ? 0 : bk.pick(10), bk.pick(16) };
+					for (int i = 0; i < 8; ++i) q[i] = enc::ham8(nib[i]);
+					unsigned len = bk.pick(13);
+					for (unsigned i = 0; i < 12; ++i) q[8 + i] = enc::par((uint8_t) (i < len ? 0x41 + bk.pick(26) : 0x20));
+				}
+				out.push_back(p);
+			} else { std::vector<unsigned> n; for (int i = 0; i < 40; ++i) n.push_back(bk.pick(4) ? bk.pick(10) : bk.pick(16)); hamrow(mag, pk, n); }
+		}
+		out.push_back(tx::header(mag, 0xFF, 0x3F7F, f, txt));
+	}
+	// an ordinary page
+	out.push_back(tx::header(page >> 8, page & 0xFF, 0, f, txt));
+	for (unsigned y = 1; y <= 24; ++y) if (!bk.pick(3)) { uint8_t row[40]; for (auto &b : row) b = (uint8_t)(bk.pick(6) ? 0x20 + bk.pick(0x60) : bk.pick(0x20)); out.push_back(tx::row(page >> 8, y, row)); }
+	out.push_back(tx::header(page >> 8, 0xFF, 0x3F7F, f, txt));
+	if (recent) recent->push_back(page);	// (not 900: the list also feeds calls whose page number argument must be a transmittable page, 100-8FF)
+	return page;
+}
+
+
 } // namespace l25
